@@ -68,6 +68,108 @@ theorem bodyEnvs_dist (hash : Tuple → Nat) (n : Nat) (hn : 0 < n) (lk : String
     obtain ⟨e, he, hx⟩ := (specCmps_mem _ _ _).1 hx
     exact ⟨e, (evalPos_dist hash n hn lk r.posAtoms hpos e).2 ⟨w, hw, he⟩, hx⟩
 
+/-! ### the engine's own clause evaluation of a partition-safe clause -/
+
+/-- the body of a clause with ≤ 1 positive atom and no negated atom, as the engine evaluates it:
+    per-valuation computed columns and filters over the scan. -/
+theorem bodyEnvsM_single (lk : String → List Tuple) (r : Rule) (_hpos : r.posAtoms.length ≤ 1) (hneg : r.negAtoms = []) :
+    bodyEnvsM true lk r =
+      match buildCmps r.posVars r.cmps with
+      | none => none
+      | some (cols, fs) =>
+        if cols.any (fun xe => exprHasDivMod xe.2) then none else
+        match optMapM (applyCols cols) (evalPos lk r.posAtoms [[]]) with
+        | none => none
+        | some envs => some (envs.filter (fun env => fs.all (Cmp.holds env))) := by
+  unfold bodyEnvsM
+  cases hb : buildCmps r.posVars r.cmps with
+  | none => rfl
+  | some cf =>
+    obtain ⟨cols, fs⟩ := cf
+    simp only [hneg, evalNegs_nil]
+    rfl
+
+theorem evalRuleM_dist (hash : Tuple → Nat) (n : Nat) (hn : 0 < n) (lk : String → List Tuple) (r : Rule)
+    (hpos : r.posAtoms.length ≤ 1) (hneg : r.negAtoms = []) (hagg : r.hasAgg = false)
+    (ts : List Tuple) (hev : evalRuleM true lk r = some ts) :
+    (∀ w, w ∈ List.range n → ∃ tw, evalRuleM true (partLk hash n w lk) r = some tw) ∧
+    (∀ t, t ∈ ts ↔ ∃ w tw, w ∈ List.range n ∧ evalRuleM true (partLk hash n w lk) r = some tw ∧ t ∈ tw) := by
+  unfold evalRuleM at hev ⊢
+  simp only [bodyEnvsM_single _ r hpos hneg] at hev ⊢
+  cases hb : buildCmps r.posVars r.cmps with
+  | none => rw [hb] at hev; cases hev
+  | some cf =>
+    obtain ⟨cols, fs⟩ := cf
+    rw [hb] at hev
+    simp only at hev ⊢
+    by_cases hdm : (cols.any fun xe => exprHasDivMod xe.2) = true
+    · simp [hdm] at hev
+    · simp only [hdm, Bool.false_eq_true, if_false] at hev ⊢
+      cases hc : optMapM (applyCols cols) (evalPos lk r.posAtoms [[]]) with
+      | none => rw [hc] at hev; cases hev
+      | some E =>
+        rw [hc] at hev
+        simp only [headOf, hagg, Bool.false_eq_true, if_false, headRows] at hev ⊢
+        -- every partition's computed columns succeed
+        have hcw : ∀ w, w ∈ List.range n → ∃ Ew, optMapM (applyCols cols) (evalPos (partLk hash n w lk) r.posAtoms [[]]) = some Ew := by
+          intro w hw
+          cases hcc : optMapM (applyCols cols) (evalPos (partLk hash n w lk) r.posAtoms [[]]) with
+          | some Ew => exact ⟨Ew, rfl⟩
+          | none =>
+            obtain ⟨e, he, hf⟩ := (optMapM_none_iff _ _).1 hcc
+            have : e ∈ evalPos lk r.posAtoms [[]] := (evalPos_dist hash n hn lk r.posAtoms hpos e).2 ⟨w, hw, he⟩
+            have : optMapM (applyCols cols) (evalPos lk r.posAtoms [[]]) = none := (optMapM_none_iff _ _).2 ⟨e, this, hf⟩
+            rw [hc] at this; cases this
+        -- membership in the filtered computed valuations distributes
+        have hmem : ∀ x, x ∈ E.filter (fun env => fs.all (Cmp.holds env)) ↔
+            ∃ w Ew, w ∈ List.range n ∧ optMapM (applyCols cols) (evalPos (partLk hash n w lk) r.posAtoms [[]]) = some Ew ∧
+              x ∈ Ew.filter (fun env => fs.all (Cmp.holds env)) := by
+          intro x
+          simp only [List.mem_filter, optMapM_some_mem _ _ _ hc x]
+          constructor
+          · rintro ⟨⟨e, he, hf⟩, hp⟩
+            obtain ⟨w, hw, hew⟩ := (evalPos_dist hash n hn lk r.posAtoms hpos e).1 he
+            obtain ⟨Ew, hEw⟩ := hcw w hw
+            exact ⟨w, Ew, hw, hEw, (optMapM_some_mem _ _ _ hEw x).2 ⟨e, hew, hf⟩, hp⟩
+          · rintro ⟨w, Ew, hw, hEw, hx, hp⟩
+            obtain ⟨e, he, hf⟩ := (optMapM_some_mem _ _ _ hEw x).1 hx
+            exact ⟨⟨e, (evalPos_dist hash n hn lk r.posAtoms hpos e).2 ⟨w, hw, he⟩, hf⟩, hp⟩
+        have hsome : ∀ w, w ∈ List.range n → ∃ tw,
+            (match (match optMapM (applyCols cols) (evalPos (partLk hash n w lk) r.posAtoms [[]]) with
+                | none => none
+                | some envs => some (envs.filter (fun env => fs.all (Cmp.holds env)))) with
+              | some envs => optMapM (fun env => optMapM (HTerm.plain env) r.hargs) envs
+              | none => none) = some tw := by
+          intro w hw
+          obtain ⟨Ew, hEw⟩ := hcw w hw
+          rw [hEw]
+          simp only
+          cases hh : optMapM (fun env => optMapM (HTerm.plain env) r.hargs) (Ew.filter (fun env => fs.all (Cmp.holds env))) with
+          | some tw => exact ⟨tw, rfl⟩
+          | none =>
+            obtain ⟨x, hx, hf⟩ := (optMapM_none_iff _ _).1 hh
+            have : x ∈ E.filter (fun env => fs.all (Cmp.holds env)) := (hmem x).2 ⟨w, Ew, hw, hEw, hx⟩
+            have : optMapM (fun env => optMapM (HTerm.plain env) r.hargs) (E.filter (fun env => fs.all (Cmp.holds env))) = none :=
+              (optMapM_none_iff _ _).2 ⟨x, this, hf⟩
+            rw [hev] at this; cases this
+        refine ⟨hsome, ?_⟩
+        intro t
+        rw [optMapM_some_mem _ _ _ hev t]
+        constructor
+        · rintro ⟨x, hx, hf⟩
+          obtain ⟨w, Ew, hw, hEw, hxw⟩ := (hmem x).1 hx
+          obtain ⟨tw, htw⟩ := hsome w hw
+          refine ⟨w, tw, hw, htw, ?_⟩
+          rw [hEw] at htw
+          simp only at htw
+          exact (optMapM_some_mem _ _ _ htw t).2 ⟨x, hxw, hf⟩
+        · rintro ⟨w, tw, hw, htw, ht⟩
+          obtain ⟨Ew, hEw⟩ := hcw w hw
+          rw [hEw] at htw
+          simp only at htw
+          obtain ⟨x, hx, hf⟩ := (optMapM_some_mem _ _ _ htw t).1 ht
+          exact ⟨x, (hmem x).2 ⟨w, Ew, hw, hEw, hx⟩, hf⟩
+
 /-- one partition-safe aggregate-free clause: if the whole relation evaluates, every partition
     does, and a tuple is derived iff some partition derives it. -/
 theorem evalRuleLk_dist (hash : Tuple → Nat) (n : Nat) (hn : 0 < n) (lk : String → List Tuple) (r : Rule)
@@ -114,35 +216,34 @@ theorem mem_unionAll (t : Tuple) : ∀ (ls : List (List Tuple)), t ∈ unionAll 
       · exact Or.inl ht
       · exact Or.inr ⟨l, hl, ht⟩
 
-/-- **a partition-safe aggregate-free head distributes over hash partitioning**, for every
-    partitioner and every positive worker count. -/
-theorem evalRules_dist (hash : Tuple → Nat) (n : Nat) (hn : 0 < n) (lk : String → List Tuple) (cs : List Rule)
-    (hsafe : parSafe cs = true) (hagg : ∀ r, r ∈ cs → r.hasAgg = false)
-    (ts : List Tuple) (hev : evalRules lk cs = some ts) :
-    MemEq (unionAll ((List.range n).map (fun w => (evalRules (partLk hash n w lk) cs).getD []))) ts := by
-  have hps : ∀ r, r ∈ cs → r.posAtoms.length ≤ 1 ∧ r.negAtoms = [] := by
+/-- **a partition-safe head distributes over hash partitioning**, for every partitioner and
+    every positive worker count (the engine's own clause evaluation; no hypothesis on the clauses
+    beyond `parSafe`). -/
+theorem evalRulesM_dist (hash : Tuple → Nat) (n : Nat) (hn : 0 < n) (lk : String → List Tuple) (cs : List Rule)
+    (hsafe : parSafe cs = true) (ts : List Tuple) (hev : evalRulesM true lk cs = some ts) :
+    MemEq (unionAll ((List.range n).map (fun w => (evalRulesM true (partLk hash n w lk) cs).getD []))) ts := by
+  have hps : ∀ r, r ∈ cs → r.posAtoms.length ≤ 1 ∧ r.negAtoms = [] ∧ r.hasAgg = false := by
     intro r hr
     unfold parSafe at hsafe
     have := List.all_eq_true.1 hsafe r hr
-    simp only [Bool.and_eq_true, decide_eq_true_eq, List.isEmpty_iff] at this
-    exact this
-  -- every clause evaluates on the whole relation
-  have hall : ∀ r, r ∈ cs → ∃ a, evalRuleLk lk r = some a := by
+    simp only [Bool.and_eq_true, decide_eq_true_eq, List.isEmpty_iff, Bool.not_eq_true'] at this
+    exact ⟨this.1.1, this.1.2, this.2⟩
+  unfold evalRulesM at hev ⊢
+  have hall : ∀ r, r ∈ cs → ∃ a, evalRuleM true lk r = some a := by
     intro r hr
-    cases hc : evalRuleLk lk r with
+    cases hc : evalRuleM true lk r with
     | some a => exact ⟨a, rfl⟩
     | none =>
-      have : evalRules lk cs = none := (evalRulesWith_none_iff _ _).2 ⟨r, hr, hc⟩
+      have : evalRulesWith (evalRuleM true lk) cs = none := (evalRulesWith_none_iff _ _).2 ⟨r, hr, hc⟩
       rw [hev] at this; cases this
-  -- hence every partition evaluates
-  have hpart : ∀ w, w ∈ List.range n → ∃ tw, evalRules (partLk hash n w lk) cs = some tw := by
+  have hpart : ∀ w, w ∈ List.range n → ∃ tw, evalRulesWith (evalRuleM true (partLk hash n w lk)) cs = some tw := by
     intro w hw
-    cases hc : evalRules (partLk hash n w lk) cs with
+    cases hc : evalRulesWith (evalRuleM true (partLk hash n w lk)) cs with
     | some tw => exact ⟨tw, rfl⟩
     | none =>
       obtain ⟨r, hr, hn'⟩ := (evalRulesWith_none_iff _ _).1 hc
       obtain ⟨a, ha⟩ := hall r hr
-      obtain ⟨tw, htw⟩ := (evalRuleLk_dist hash n hn lk r (hps r hr).1 (hps r hr).2 (hagg r hr) a ha).1 w hw
+      obtain ⟨tw, htw⟩ := (evalRuleM_dist hash n hn lk r (hps r hr).1 (hps r hr).2.1 (hps r hr).2.2 a ha).1 w hw
       rw [hn'] at htw; cases htw
   intro t
   rw [mem_unionAll]
@@ -155,9 +256,9 @@ theorem evalRules_dist (hash : Tuple → Nat) (n : Nat) (hn : 0 < n) (lk : Strin
     simp only [Option.getD_some] at ht
     obtain ⟨r, a, hr, ha, hta⟩ := (evalRulesWith_some_mem _ _ _ htw t).1 ht
     obtain ⟨b, hb⟩ := hall r hr
-    exact ⟨r, b, hr, hb, ((evalRuleLk_dist hash n hn lk r (hps r hr).1 (hps r hr).2 (hagg r hr) b hb).2 t).2 ⟨w, a, hw, ha, hta⟩⟩
+    exact ⟨r, b, hr, hb, ((evalRuleM_dist hash n hn lk r (hps r hr).1 (hps r hr).2.1 (hps r hr).2.2 b hb).2 t).2 ⟨w, a, hw, ha, hta⟩⟩
   · rintro ⟨r, a, hr, ha, hta⟩
-    obtain ⟨w, tw, hw, htw, htt⟩ := ((evalRuleLk_dist hash n hn lk r (hps r hr).1 (hps r hr).2 (hagg r hr) a ha).2 t).1 hta
+    obtain ⟨w, tw, hw, htw, htt⟩ := ((evalRuleM_dist hash n hn lk r (hps r hr).1 (hps r hr).2.1 (hps r hr).2.2 a ha).2 t).1 hta
     obtain ⟨tws, htws⟩ := hpart w hw
     refine ⟨tws, ⟨w, hw, by rw [htws]; rfl⟩, ?_⟩
     exact (evalRulesWith_some_mem _ _ _ htws t).2 ⟨r, tw, hr, htw, htt⟩
@@ -167,97 +268,60 @@ theorem evalRules_dist (hash : Tuple → Nat) (n : Nat) (hn : 0 < n) (lk : Strin
 /-- switches off, `n` workers, no row limit. -/
 def cfgW (n : Nat) : Cfg := { workers := n }
 
-/-- accumulated results with the same keys and set-equal contents. -/
-def AccEq (a b : DB) : Prop :=
-  ∀ r, (a.lookup r = none ∧ b.lookup r = none) ∨ (∃ x y, a.lookup r = some x ∧ b.lookup r = some y ∧ MemEq x y)
+theorem filter_all_true {α} (p : α → Bool) : ∀ (l : List α), (∀ x, x ∈ l → p x = true) → l.filter p = l
+  | [], _ => rfl
+  | x :: xs, h => by
+    simp only [List.filter, h x (List.mem_cons_self ..)]
+    rw [filter_all_true p xs (fun y hy => h y (List.mem_cons_of_mem _ hy))]
 
-theorem lkOf_accEq (edb : DB) {a b : DB} (h : AccEq a b) (r : String) : MemEq (lkOf edb a r) (lkOf edb b r) := by
-  unfold lkOf
-  rcases h r with ⟨h1, h2⟩ | ⟨x, y, h1, h2, hm⟩
-  · rw [h1, h2]; exact MemEq.refl _
-  · rw [h1, h2]; exact hm
+theorem filter_all_false {α} (p : α → Bool) : ∀ (l : List α), (∀ x, x ∈ l → p x = false) → l.filter p = []
+  | [], _ => rfl
+  | x :: xs, h => by
+    simp only [List.filter, h x (List.mem_cons_self ..)]
+    exact filter_all_false p xs (fun y hy => h y (List.mem_cons_of_mem _ hy))
 
-theorem accEq_cons {a b : DB} (h : AccEq a b) (g : String) {x y : List Tuple} (hm : MemEq x y) :
-    AccEq ((g, x) :: a) ((g, y) :: b) := by
-  intro r
-  by_cases hr : r = g
-  · subst hr
-    exact Or.inr ⟨x, y, lookup_cons_self _ _ _, lookup_cons_self _ _ _, hm⟩
-  · rw [lookup_cons_ne r g x a hr, lookup_cons_ne r g y b hr]
-    exact h r
+/-- **one head**: whenever the one-worker evaluation of a head succeeds, the `n`-worker evaluation
+    returns the very same list — for recursive heads (never partitioned), for heads with joins,
+    negation or aggregates (never partitioned) and for partitioned heads (distributivity). -/
+theorem evalHead_workers (p : Program) (h : String) (n : Nat) (hn : 0 < n) (hash hash' : Tuple → Nat) (fuel : Nat)
+    (lk : String → List Tuple) (ts : List Tuple)
+    (he1 : evalHead (cfgW 1) hash' fuel p lk h = some ts) : evalHead (cfgW n) hash fuel p lk h = some ts := by
+  unfold evalHead at he1 ⊢
+  by_cases hs : selfRec p h = true
+  · simp only [hs, if_true] at he1 ⊢; exact he1
+  · simp only [hs, Bool.false_eq_true, if_false] at he1 ⊢
+    have h1 : ¬ ((decide ((cfgW 1).workers > 1) && parSafe (clausesOf p h)) = true) := by
+      simp [cfgW]
+    rw [if_neg h1] at he1
+    by_cases hpar : (decide ((cfgW n).workers > 1) && parSafe (clausesOf p h)) = true
+    · rw [if_pos hpar]
+      simp only [Bool.and_eq_true] at hpar
+      have hd := evalRulesM_dist hash n hn lk (clausesOf p h) hpar.2 ts he1
+      have hw : (cfgW n).workers = n := rfl
+      simp only [hw, he1, Option.getD_some]
+      congr 1
+      rw [filter_all_true _ ts (fun t ht => List.contains_iff_mem.2 ((hd t).2 ht)),
+        filter_all_false _ _ (fun t ht => by simpa using (hd t).1 ht)]
+      simp
+    · rw [if_neg hpar]; exact he1
 
-theorem limited_cfgW (n : Nat) (p : Program) (h : String) : limited (cfgW n) p h = false := by
-  simp [limited, cfgW]
-
-theorem evalHead_cfgW (n : Nat) (hash : Tuple → Nat) (fuel : Nat) (p : Program) (lk : String → List Tuple) (h : String)
-    (hs : selfRec p h = false) :
-    evalHead (cfgW n) hash fuel p lk h =
-      if (decide (n > 1) && parSafe (clausesOf p h)) = true then
-        some (unionAll ((List.range n).map (fun w => (evalRulesM true (partLk hash n w lk) (clausesOf p h)).getD [])))
-      else evalRulesM true lk (clausesOf p h) := by
-  unfold evalHead
-  simp only [hs, Bool.false_eq_true, if_false]
-  rfl
-
-/-- one non-recursive aggregate-free head: `n` workers and one worker derive the same set, from
-    set-equal inputs, for any two partitioners. -/
-theorem evalHead_workers (p : Program) (hcf : ClauseFaithful p) (hagg : ∀ r, r ∈ p → r.hasAgg = false)
-    (h : String) (hs : selfRec p h = false) (n : Nat) (hn : 0 < n) (hash hash' : Tuple → Nat) (fuel fuel' : Nat)
-    (lkn lk1 : String → List Tuple) (hlk : ∀ r, MemEq (lkn r) (lk1 r)) (tn t1 : List Tuple)
-    (hen : evalHead (cfgW n) hash fuel p lkn h = some tn)
-    (he1 : evalHead (cfgW 1) hash' fuel' p lk1 h = some t1) : MemEq tn t1 := by
-  have haggc : ∀ r, r ∈ clausesOf p h → r.hasAgg = false := fun r hr => hagg r (List.mem_filter.1 hr).1
-  rw [evalHead_cfgW 1 hash' fuel' p lk1 h hs] at he1
-  rw [evalHead_cfgW n hash fuel p lkn h hs] at hen
-  simp only [Nat.lt_irrefl, decide_false, Bool.false_and, Bool.false_eq_true, if_false] at he1
-  rw [evalRulesM_eq hcf] at he1
-  -- the whole-relation evaluation over the n-run's inputs agrees with the 1-run's
-  have hcong : OptMemEq (evalRules lkn (clausesOf p h)) (evalRules lk1 (clausesOf p h)) :=
-    evalRules_memEq (p := p) (h := h) hagg (fun r _ => hlk r)
-  rw [he1] at hcong
-  cases hc : evalRules lkn (clausesOf p h) with
-  | none => rw [hc] at hcong; cases hcong
-  | some t' =>
-    rw [hc] at hcong
-    by_cases hpar : (decide (n > 1) && parSafe (clausesOf p h)) = true
-    · rw [if_pos hpar] at hen
-      simp only [Bool.and_eq_true, decide_eq_true_eq] at hpar
-      have hfun : (fun w => (evalRulesM true (partLk hash n w lkn) (clausesOf p h)).getD []) =
-          (fun w => (evalRules (partLk hash n w lkn) (clausesOf p h)).getD []) := by
-        funext w; rw [evalRulesM_eq hcf]
-      rw [hfun] at hen
-      cases hen
-      exact (evalRules_dist hash n hn lkn (clausesOf p h) hpar.2 haggc t' hc).trans hcong
-    · rw [if_neg hpar, evalRulesM_eq hcf, hc] at hen
-      cases hen
-      exact hcong
-
-theorem execLoop_workers (p : Program) (edb : DB) (hcf : ClauseFaithful p) (hagg : ∀ r, r ∈ p → r.hasAgg = false)
-    (hnorec : ∀ h, selfRec p h = false) (n : Nat) (hn : 0 < n) (hash hash' : Tuple → Nat)
-    (ord ord' : String → List Tuple → List Tuple) (fuel fuel' : Nat) :
-    ∀ (order : List String) (accn acc1 : DB) (lastn last1 An A1 : List Tuple) (accn' acc1' : DB),
-      AccEq accn acc1 → MemEq lastn last1 →
-      execLoop (cfgW n) hash ord fuel p edb order accn lastn = .ok An accn' →
-      execLoop (cfgW 1) hash' ord' fuel' p edb order acc1 last1 = .ok A1 acc1' →
-      MemEq An A1
-  | [], accn, acc1, lastn, last1, An, A1, accn', acc1', _, hl, hrn, hr1 => by
-    simp only [execLoop, Outcome.ok.injEq] at hrn hr1
-    obtain ⟨rfl, _⟩ := hrn
-    obtain ⟨rfl, _⟩ := hr1
-    exact hl
-  | h :: rest, accn, acc1, lastn, last1, An, A1, accn', acc1', hacc, _, hrn, hr1 => by
-    unfold execLoop at hrn hr1
-    cases hen : evalHead (cfgW n) hash fuel p (lkOf edb accn) h with
-    | none => rw [hen] at hrn; simp at hrn
-    | some tn =>
-      cases he1 : evalHead (cfgW 1) hash' fuel' p (lkOf edb acc1) h with
-      | none => rw [he1] at hr1; simp at hr1
-      | some t1 =>
-        rw [hen] at hrn; rw [he1] at hr1
-        simp only [limited_cfgW, Bool.false_eq_true, if_false] at hrn hr1
-        have hm := evalHead_workers p hcf hagg h (hnorec h) n hn hash hash' fuel fuel' _ _ (lkOf_accEq edb hacc) tn t1 hen he1
-        exact execLoop_workers p edb hcf hagg hnorec n hn hash hash' ord ord' fuel fuel' rest _ _ tn t1 An A1 accn' acc1'
-          (accEq_cons hacc h hm) hm hrn hr1
+theorem execLoop_workers (p : Program) (edb : DB) (n : Nat) (hn : 0 < n) (hash hash' : Tuple → Nat)
+    (ord : String → List Tuple → List Tuple) (fuel : Nat) :
+    ∀ (order : List String) (acc : DB) (last A : List Tuple) (acc' : DB),
+      execLoop (cfgW 1) hash' ord fuel p edb order acc last = .ok A acc' →
+      execLoop (cfgW n) hash ord fuel p edb order acc last = .ok A acc'
+  | [], _, _, _, _, h => by simpa [execLoop] using h
+  | h :: rest, acc, last, A, acc', hr => by
+    unfold execLoop at hr ⊢
+    cases he1 : evalHead (cfgW 1) hash' fuel p (lkOf edb acc) h with
+    | none => rw [he1] at hr; simp at hr
+    | some ts =>
+      rw [he1] at hr
+      rw [evalHead_workers p h n hn hash hash' fuel _ ts he1]
+      have hl1 : limited (cfgW 1) p h = false := by simp [limited, cfgW]
+      have hln : limited (cfgW n) p h = false := by simp [limited, cfgW]
+      simp only [hl1, hln, Bool.and_false, Bool.false_eq_true, if_false] at hr ⊢
+      exact execLoop_workers p edb n hn hash hash' ord fuel rest _ _ A acc' hr
 
 theorem run_loop (cfg : Cfg) (hash : Tuple → Nat) (ord : String → List Tuple → List Tuple) (fuel : Nat)
     (p : Program) (edb : DB) (A : List Tuple) (acc : DB) (hrun : Engine.run cfg hash ord fuel p edb = .ok A acc) :
@@ -270,5 +334,22 @@ theorem run_loop (cfg : Cfg) (hash : Tuple → Nat) (ord : String → List Tuple
     · split at hrun
       · cases hrun
       · exact hrun
+
+/-- the whole run: `n` workers reproduce the successful one-worker run exactly. -/
+theorem run_workers (p : Program) (edb : DB) (n : Nat) (hn : 0 < n) (hash hash' : Tuple → Nat)
+    (ord : String → List Tuple → List Tuple) (fuel : Nat) (A : List Tuple) (acc : DB)
+    (h1 : Engine.run (cfgW 1) hash' ord fuel p edb = .ok A acc) :
+    Engine.run (cfgW n) hash ord fuel p edb = .ok A acc := by
+  have hl := execLoop_workers p edb n hn hash hash' ord fuel _ _ _ _ _ (run_loop _ _ _ _ _ _ _ _ h1)
+  unfold Engine.run at h1 ⊢
+  split at h1
+  · cases h1
+  · split at h1
+    · cases h1
+    · split at h1
+      · cases h1
+      · rename_i h_e h_s h_b
+        simp only [h_e, h_s, h_b, Bool.false_eq_true, if_false]
+        exact hl
 
 end ILV.Engine
